@@ -6,8 +6,10 @@
    strconv / fmt / path/filepath / unicode case mapping produces for the forwarding helpers
    (computed by the harness by a direct call); the model decides only the structure around it
    (arity, which marker, which argument is parsed when).
-   Repaired behaviour is modelled for: C11-bucket-negative-multiple, C11-divi-zero,
-   C11-substr-overflow, C11-hi-minint64, C11-expbucket-float (see known_findings.d/C11.json). *)
+   Repaired behaviour is modelled for all nine findings of known_findings.d/C11.json:
+   C11-bucket-negative-multiple, C11-divi-zero, C11-substr-overflow, C11-hi-minint64,
+   C11-expbucket-float, C11-hf-rounding, C11-bytesize-uint64-wrap, C11-ceil-overflow,
+   C11-andor-emptiness. *)
 From Coq Require Import List NArith ZArith Bool.
 From RareV Require Import Base.Hex Base.Res Base.Num Gen.GenC11 Model.Humanize Model.CsvItem.
 Import ListNotations.
@@ -186,18 +188,21 @@ Definition f_fun (args : list arg) (orc : bytes) : result bytes :=
   | _ => ok ErrorArgCount
   end.
 
-(* ceil / floor: int64(math.Ceil(f)); out of range (and NaN, Inf) the amd64 conversion yields MinInt64 *)
-Definition f_to_int (up : bool) (v : fval) : Z :=
+(* ceil / floor after repair C11-ceil-overflow: a result outside int64 (and NaN, Inf) gives <VALUE> *)
+Definition f_to_int (up : bool) (v : fval) : option Z :=
   match v with
   | FFin m e => let r := if up then fceil m e else ffloor m e in
-                if in_int64 r then r else min_int64
-  | _ => min_int64
+                if in_int64 r then Some r else None
+  | _ => None
   end.
 Definition f_ceilfloor (up : bool) (args : list arg) : result bytes :=
   match args with
   | [a] => match a_f a with
            | None => ok ErrorNum
-           | Some v => ok (itoa (f_to_int up v))
+           | Some v => match f_to_int up v with
+                       | Some r => ok (itoa r)
+                       | None => ok ErrorValue
+                       end
            end
   | _ => ok ErrorArgCount
   end.
@@ -249,9 +254,9 @@ Definition f_not args : result bytes :=
   | _ => ok ErrorArgCount
   end.
 
-(* kfAnd / kfOr test emptiness (== FalsyVal), not truthiness: recorded finding C11-andor-emptiness *)
-Definition f_and args : result bytes := ok (tstr (forallb (fun a => nonempty (a_val a)) args)).
-Definition f_or args : result bytes := ok (tstr (existsb (fun a => nonempty (a_val a)) args)).
+(* kfAnd / kfOr after repair C11-andor-emptiness: truthy logic, as documented *)
+Definition f_and args : result bytes := ok (tstr (forallb (fun a => truthy (a_val a)) args)).
+Definition f_or args : result bytes := ok (tstr (existsb (fun a => truthy (a_val a)) args)).
 
 Definition f_numcmp (test : fval -> fval -> bool) args : result bytes :=
   match args with
@@ -443,11 +448,12 @@ Definition f_hf args (orc : bytes) : result bytes :=
   | _ => ok ErrorArgCount
   end.
 
-(* bytesize / bytesizesi (ParseUint, then int64(n)) and downscale (ParseInt) *)
+(* bytesize / bytesizesi (ParseUint) and downscale (ParseInt) *)
 Definition f_unitize (unsigned : bool) (step : Z) (delim : bytes) (units : list bytes)
                      args (orc : bytes) : result bytes :=
   let body (a : arg) :=
-    let n := if unsigned then option_map (fun u => wrap64 (Z.of_N u)) (atou (a_val a))
+    (* after repair C11-bytesize-uint64-wrap values >= 2^63 are scaled as they are *)
+    let n := if unsigned then option_map Z.of_N (atou (a_val a))
              else atoi (a_val a) in
     match n with
     | None => ok ErrorNum
@@ -642,17 +648,8 @@ Definition C11_check (c : case) (o : result bytes) : bool :=
       | Some _ => dflt
       | None => on_ok o (fun out => bytes_eqb out ErrorNum)
       end
-  | Bytesize, a :: _ | BytesizeSi, a :: _ =>
-      match atou (a_val a) with
-      | Some u => if 2 ^ 63 <=? u
-                  then match eval c with
-                       | Ok e => if is_prefix ErrorNum e then dflt                      (* bad precision argument *)
-                                 else on_ok o (fun out => negb (is_prefix [45] out))   (* a size is never negative *)
-                       | Panic => false
-                       end
-                  else dflt
-      | None => dflt
-      end
+  | Bytesize, _ :: _ | BytesizeSi, _ :: _ =>
+      dflt && on_ok o (fun out => negb (is_prefix [45] out))       (* a size is never negative *)
   | Csv, _ :: _ =>
       on_ok o (fun out =>
         match rfc4180_row out with
